@@ -60,3 +60,8 @@ def fuzz(p):
                 kinds[key] += 1
     return {"name": "mutation fuzz of AutoDecoder.decode_message_payload / decode_message on the real code", "bound": f"{len(cands)} payloads (genuine messages of every layout, {n} mutations, random bytes, P1 fragments) x remembered decoder (all 8 for the first 400, random afterwards), 2 s per call",
             "evaluations": ev, "distinct_nontrivial": len(seen), "violations": bad[:8], "violation_kinds": dict(kinds)}
+
+def replay_p1text(p):
+    r = fuzz({"n": 600, "seed": 3})
+    if r["violations"]: return {"violated": True, "detail": r["violations"][0], "found_by": "bounded fuzz"}
+    return {"violated": False, "inconclusive": True}
